@@ -476,6 +476,19 @@ def check(prog, rep):
     ng = check_S4(prog, rep, eff)
     ns = check_S5(prog, rep, eff)
     nb = check_S6(prog, rep, eff)
+    # S7: a public function that writes into its input raster changes what every later call on that raster sees - the
+    # result of the later call then depends on the earlier one.  Decided by the mutation analysis of C10 (rule P1).
+    from ..report import REFUTED, Report
+    from . import C10
+    tmp = Report('C10')
+    C10.check(prog, tmp)
+    bad = [ob for ob in tmp.obs if ob.rule == 'P1' and ob.status == REFUTED]
+    for ob in bad:
+        o2 = rep.add('S7-input', ob.module, ob.entry, ob.site, ob.line, False,
+                     'a later call on the same raster sees the modified cells: ' + ob.why)
+    if not bad:
+        rep.add('S7-input', 'xrspatial', 'public raster functions', 'no public function writes into an input raster (%d inputs checked)'
+                % sum(1 for ob in tmp.obs if ob.rule == 'P1'), 1, True)
     rep.floor('S1', 250)
     rep.floor('S2', 5)
     rep.floor('S3-parallel', 85)
